@@ -35,6 +35,12 @@ pub fn build_with(seed: u64, t22: bool, force_pending: bool, rec: &mut Recorder)
 /// (a two-hop moves the intermediate token vault to vault, two single swaps move it through the trader: with a fee on
 /// it the two are not comparable), routes with A as input or output keep their meaning.
 pub fn build_full(seed: u64, t22: bool, force_pending: bool, fee_on_a: bool, rec: &mut Recorder) -> World {
+    build_fee(seed, t22, force_pending, if fee_on_a { Some("A") } else { None }, rec)
+}
+
+/// `fee_mint`: the Token-2022 mint (A or R) that charges a transfer fee
+pub fn build_fee(seed: u64, t22: bool, force_pending: bool, fee_mint: Option<&str>, rec: &mut Recorder) -> World {
+    let fee_on_a = fee_mint.is_some();
     TRADE_PENDING.with(|c| c.set(false));
     let mut w = World::new(seed);
     w.init_config("C1", 300);
@@ -43,7 +49,7 @@ pub fn build_full(seed: u64, t22: bool, force_pending: bool, fee_on_a: bool, rec
     }
     let keys = w.sorted_keys(3);
     for (i, n) in ["A", "B", "R"].iter().enumerate() {
-        let fee = if fee_on_a && t22 && *n == "A" { Some(pick(&mut w, &[(100u16, 1_000_000_000u64), (250, u64::MAX), (30, 5_000)])) } else { None };
+        let fee = if fee_on_a && t22 && Some(*n) == fee_mint { Some(pick(&mut w, &[(100u16, 1_000_000_000u64), (250, u64::MAX), (30, 5_000)])) } else { None };
         w.add_mint_keyed(n, keys[i], if t22 { TokProg::T22 } else { TokProg::Spl }, fee);
     }
     for u in ["U1", "U2", "collectAuthC1"] {
@@ -131,8 +137,12 @@ fn random_limit(w: &mut World, pool: &str, a_to_b: bool) -> u128 {
 pub fn run(seed: u64, worlds: usize, attempts: usize, rec: &mut Recorder) {
     for wi in 0..worlds {
         let t22 = wi % 2 == 1;
+        // every fourth world charges a transfer fee: on mint A (token A of its pools) or on mint R (token B of its pools)
         let fee_on_a = wi % 4 == 1;
-        let mut w = build_full(seed.wrapping_mul(7919).wrapping_add(wi as u64), t22, wi % 4 == 0, fee_on_a, rec);
+        let fee_mint = if !fee_on_a { None } else if (wi as u64 / 4 + seed) % 2 == 0 { Some("A") } else { Some("R") };
+        let mut w = build_fee(seed.wrapping_mul(7919).wrapping_add(wi as u64), t22, wi % 4 == 0, fee_mint, rec);
+        // routes whose intermediate token is the fee mint are left out (see build_full)
+        let fee_routes: [usize; 4] = if fee_mint == Some("R") { [0, 1, 2, 3] } else { [0, 1, 4, 5] };
         let legs: Vec<(&str, &str, bool, bool)> = vec![
             ("P1", "P2", true, true),   // A->B->R
             ("P2", "P1", false, false), // R->B->A
@@ -164,7 +174,7 @@ pub fn run(seed: u64, worlds: usize, attempts: usize, rec: &mut Recorder) {
                 let dt = pick(&mut w, &[1i64, 11, 130, 4000]);
                 rec.tick_clock(&mut w, dt);
             }
-            let (p1, p2, d1, d2) = if hold || fee_on_a { legs[[0usize, 1, 4, 5][if hold { att % 4 } else { w.rng.gen_range(0..4) }]] } else if w.rng.gen_bool(0.9) { legs[w.rng.gen_range(0..6)] } else { legs[w.rng.gen_range(6..legs.len())] };
+            let (p1, p2, d1, d2) = if hold { legs[[0usize, 1, 4, 5][att % 4]] } else if fee_on_a { legs[fee_routes[w.rng.gen_range(0..4)]] } else if w.rng.gen_bool(0.9) { legs[w.rng.gen_range(0..6)] } else { legs[w.rng.gen_range(6..legs.len())] };
             let exact_in = w.rng.gen_bool(0.6);
             let amount = log_uniform(&mut w, 3, 42) as u64;
             let (l1, l2) = (random_limit(&mut w, p1, d1), random_limit(&mut w, p2, d2));
